@@ -269,7 +269,7 @@ def goodHist (s : St) (last : Int) : Hist → Bool
   | (ctx, op, pw) :: h => goodStep s last ctx op pw && goodHist ((step s ctx op pw).getD s) ctx.now h
 
 
-/-! ## the repair of defect D35 (notes/C18.md): deposit / withdraw write the flag while the rate is zero, as create does
+/-! ## the repair of defect D45 (notes/C18.md): deposit / withdraw write the flag while the rate is zero, as create does
 
 `stepFix` is NOT what the code does; it is the model of the three-line patch given in the notes. The driver accepts it as well as
 `step` for deposit / withdraw (so that a repaired tree checks clean), and `C18.savings_only_for_time_at_positive_rate_repaired`
